@@ -221,9 +221,10 @@ def run_dy(ctx):
 
 
 def refused_ok(path):
-    """BoutMesh refuses (ValueError) region sets whose radial sizes differ; refusal is an
-    explicit error, not a malformed grid."""
-    return isinstance(path.exc, ValueError) and "same set of x-grid sizes" in str(path.exc)
+    """BoutMesh refuses (ValueError) region sets whose radial sizes differ, and a connected
+    double null is refused when its first gridded SOL surface would lie inside the second
+    separatrix (guard under contract in C09/C12); refusal is an explicit error, not a malformed grid."""
+    return isinstance(path.exc, ValueError) and ("same set of x-grid sizes" in str(path.exc) or "Cannot create connected double-null grid" in str(path.exc))
 
 
 FN_GEO = "hypnotoad.core.mesh:BoutMesh.geometry"
